@@ -701,6 +701,19 @@ func ruleOPT13(c *Ctx) {
 				exitsOK = false
 			}
 		}
+		// a failing action ends the list: with its error pending neither the next action nor a nil return is reachable
+		errv := resultValues(call, 0)
+		q := &AQuery{Fn: fn, From: call.(ssa.Instruction), Designated: errv, Assume: AssumeNonNil,
+			IsTarget: func(in ssa.Instruction, st *AState) bool {
+				if in == call.(ssa.Instruction) {
+					return true
+				}
+				ret, isRet := in.(*ssa.Return)
+				return isRet && st.Tri(ret.Results[0]) != TriNonNil
+			}}
+		if r := q.Run(); r.Found != nil || len(errv) == 0 {
+			exitsOK = false
+		}
 		// after exhaustion: nil
 		if fwd && elemOK && every && exitsOK {
 			ok = true
